@@ -1,8 +1,9 @@
 CONSTANTS
   TLen = 4
   NPrim = 2
-  MaxObj = 3
-  MaxDepth = 3
+  NMat = 1
+  MaxObj = 4
+  MaxDepth = 2
 SPECIFICATION Spec
 CONSTRAINT Bounded
 INVARIANT TypeOK
